@@ -151,7 +151,7 @@ AffCtors ==
     \cup {[ctor |-> "rotation", dim |-> 2, r |-> r, q |-> 1] : r \in Orth2}
     \cup {[ctor |-> "scaling", dim |-> Len(v), v |-> v, q |-> 2] : v \in {<<1, -4>>, <<3>>, <<0, 2, 5>>}}
     \cup {[ctor |-> "uniform_scaling", dim |-> d, s |-> s, q |-> 2] : d \in 1..3, s \in {3, -2}}
-    \cup {[ctor |-> "slice", dim |-> Len(mk), mask |-> mk, ref |-> rf, q |-> 2] : mk \in {<<TRUE, FALSE>>, <<FALSE, FALSE, TRUE>>, <<TRUE>>, <<FALSE>>}, rf \in {<<3, -1, 4>>}}
+    \cup {[ctor |-> "slice", dim |-> Len(mk), mask |-> mk, ref |-> rf, q |-> 2] : mk \in {<<TRUE, FALSE>>, <<FALSE, FALSE, TRUE>>, <<TRUE>>, <<FALSE>>}, rf \in {<<3, -1, 4>>, <<0, 5, 0>>}}
     \cup {[ctor |-> "translation", dim |-> Len(o), off |-> o, q |-> 2] : o \in {<<1, -3>>, <<2>>, <<0, 1, -1>>}}
 ValidCtor(c) ==
     /\ (c.ctor \in {"unit", "zero_idx"} => c.idx < c.dim)
